@@ -560,12 +560,9 @@ def check_path(inp, path, memo=None, variants=False):
     return viol, 'ok' if not viol else ('late-stats' if not hard else 'differs'), sw['state']
 
 
-def check_variants(init, path, lz, sw):
+def _variants_for_source(init, path, lz, sw, base, syms, src):
     viol = []
     n = len(path)
-    base = lz['res'][1]
-    src = {'op': 'from_state', 'state': init}
-    syms = [SYMS[s] for s in path]
 
     def cmp(label, steps, positions):
         r = _run_record(steps, positions)
@@ -599,6 +596,22 @@ def check_variants(init, path, lz, sw):
                                          'positions': list(range(i + 1, j + 2))}] + syms[j + 1:]
             positions = [0] + list(range(1, i + 1)) + [i + 1] + list(range(j + 2, n + 1))
             cmp('conditional', steps, positions)
+    return viol
+
+
+def check_variants(init, path, lz, sw):
+    viol = []
+    n = len(path)
+    base = lz['res'][1]
+    syms = [SYMS[s] for s in path]
+    # both kinds of source the library itself has: one shared sequential cursor (unstream-like) and independent
+    # per-resource iterators (iterable-like); a grouping/wrapping must not matter for either
+    for seq in (True, False):
+        viol.extend(_variants_for_source(init, path, lz, sw, base, syms, {'op': 'from_state', 'state': init, 'sequential': seq}))
+        if viol:
+            return viol
+    src = {'op': 'from_state', 'state': init}
+
     # the same Flow object asked again (datastream, then results, then process): nothing may be remembered between calls.
     # Only for paths whose links are re-iterable and do not edit their own arguments (one-shot generators excluded).
     if not any(s in ('gen150', 'iterable') or s.startswith('user:') for s in path):
